@@ -458,3 +458,24 @@ Fixpoint inplace_frames (fl : list frame) (op ip oend : Z) : option (Z * Z) :=
 (* the layout of the documentation: output buffer of bufSize bytes, input at its end *)
 Definition inplace_decode (fl : list frame) (bufSize : Z) : option (Z * Z) :=
   inplace_frames fl 0 (bufSize - len (ser_frames fl)) bufSize.
+
+(* ======================================================================== *)
+(* Skippable frames: writer and reader with their capacity checks            *)
+(* ======================================================================== *)
+(* ZSTD_writeSkippableFrame(dst, dstCapacity, src, srcSize, magicVariant) (lib/compress/zstd_compress.c) *)
+Definition write_skippable_frame (cap srcSize variant : Z) : option Z :=
+  if cap <? srcSize + SKIPHDR then None
+  else if srcSize >? W32 - 1 then None
+  else if variant >? 15 then None
+  else Some (srcSize + SKIPHDR).
+
+(* ZSTD_readSkippableFrame(dst, dstCapacity, &magicVariant, src, srcSize): (bytes written, variant) *)
+Definition read_skippable_frame (cap : Z) (src : list Z) : option (Z * Z) :=
+  if len src <? SKIPHDR then None
+  else
+    let magic := le (firstn 4 src) in
+    if negb (is_skippable_magic magic) then None
+    else match read_skippable_frame_size src with
+         | None => None
+         | Some s => if s - SKIPHDR >? cap then None else Some (s - SKIPHDR, magic - SKIP_START)
+         end.
